@@ -168,7 +168,8 @@ def _float_to_cst(value: float) -> cst.BaseExpression:
         if "." not in float_str and "e" not in float_str:
             float_str += ".0"
         inner = cst.Float(float_str)
-    if value < 0:
+    if math.copysign(1.0, value) < 0:
+        # Also holds for -0.0, which is not less than zero.
         return cst.UnaryOperation(
             operator=cst.Minus(),
             expression=inner,
@@ -278,7 +279,7 @@ def _parse_int(expr: cst.BaseExpression) -> int | None:
 def _parse_float(expr: cst.BaseExpression) -> float | None:
     """Extract a float value from a CST expression.
 
-    Handles plain ``cst.Float`` and ``cst.UnaryOperation(Minus, Float)``.
+    Handles plain ``cst.Float``, ``float("inf")``/``float("nan")`` and their negations.
 
     Args:
         expr: The CST expression to inspect.
@@ -288,12 +289,19 @@ def _parse_float(expr: cst.BaseExpression) -> float | None:
     """
     if isinstance(expr, cst.Float):
         return float(expr.value)
+    if isinstance(expr, cst.UnaryOperation) and isinstance(expr.operator, cst.Minus):
+        operand = _parse_float(expr.expression)
+        return None if operand is None else -operand
     if (
-        isinstance(expr, cst.UnaryOperation)
-        and isinstance(expr.operator, cst.Minus)
-        and isinstance(expr.expression, cst.Float)
+        isinstance(expr, cst.Call)
+        and isinstance(expr.func, cst.Name)
+        and expr.func.value == "float"
+        and len(expr.args) == 1
+        and isinstance(expr.args[0].value, cst.SimpleString)
+        and expr.args[0].value.evaluated_value in {"inf", "nan"}
     ):
-        return -float(expr.expression.value)
+        # The rendering of non-finite floats, see _float_to_cst.
+        return float(expr.args[0].value.evaluated_value)
     return None
 
 
